@@ -146,6 +146,13 @@ fn p4() -> bool { tracing::enabled!(target: "tt", Level::DEBUG) }
 fn er3() { tracing::event!(parent: None, Level::INFO, "x"); }
 fn sh3() { tracing::info!("x"); }
 fn sh5() -> tracing::Span { tracing::trace_span!("s") }
+// one emitter per macro arm that carries its own copy of the guard (macros.rs: span! x2, event! x6)
+fn sp3() -> tracing::Span { tracing::span!(parent: None, Level::INFO, "s") }
+fn spp4() -> tracing::Span { let p = tracing::Span::none(); tracing::span!(target: "tt", parent: &p, Level::DEBUG, "s") }
+fn entp2() { tracing::event!(name: "n", target: "tt", parent: None, Level::WARN, "x"); }
+fn ent4() { tracing::event!(name: "n", target: "tt", Level::DEBUG, "x"); }
+fn enp3() { tracing::event!(name: "n", parent: None, Level::INFO, "x"); }
+fn en5() { tracing::event!(name: "n", Level::TRACE, "x"); }
 
 k1_harness!(c01_k1_event_error, c01_k3_event_error, Level::ERROR, 1, e1(), ev_count);
 k1_harness!(c01_k1_event_warn, c01_k3_event_warn, Level::WARN, 2, e2(), ev_count);
@@ -160,6 +167,12 @@ k1_harness!(c01_k1_span_trace, c01_k3_span_trace, Level::TRACE, 5, s5(), span_co
 k1_harness!(c01_k1_event_root_info, c01_k3_event_root_info, Level::INFO, 3, er3(), ev_count);
 k1_harness!(c01_k1_info_shorthand, c01_k3_info_shorthand, Level::INFO, 3, sh3(), ev_count);
 k1_harness!(c01_k1_trace_span_shorthand, c01_k3_trace_span_shorthand, Level::TRACE, 5, sh5(), span_count);
+k1_harness!(c01_k1_span_root_info, c01_k3_span_root_info, Level::INFO, 3, sp3(), span_count);
+k1_harness!(c01_k1_span_target_parent_debug, c01_k3_span_target_parent_debug, Level::DEBUG, 4, spp4(), span_count);
+k1_harness!(c01_k1_event_name_target_parent_warn, c01_k3_event_name_target_parent_warn, Level::WARN, 2, entp2(), ev_count);
+k1_harness!(c01_k1_event_name_target_debug, c01_k3_event_name_target_debug, Level::DEBUG, 4, ent4(), ev_count);
+k1_harness!(c01_k1_event_name_parent_info, c01_k3_event_name_parent_info, Level::INFO, 3, enp3(), ev_count);
+k1_harness!(c01_k1_event_name_trace, c01_k3_event_name_trace, Level::TRACE, 5, en5(), ev_count);
 
 /// `enabled!` never delivers anything; its answer is guard && verdict
 macro_rules! probe_harness {
